@@ -53,6 +53,11 @@ class Impl:
             elif k == 'link':
                 p, c = self.nodes[op['p']], self.nodes[op['c']]
                 p.children.append(c); c.parents.append(p)
+            elif k == 'link1':
+                # one half of an edge only (an inconsistent graph; the generated-code column of C09 only)
+                p, c = self.nodes[op['p']], self.nodes[op['c']]
+                if op['side'] == 'child': p.children.append(c)
+                else: c.parents.append(p)
             elif k == 'remove_node':
                 g.remove_node(self.nodes[op['n']])
             elif k == 'add_attacker':
